@@ -750,14 +750,14 @@ Proof.
       * subst m. rewrite andb_false_r. apply (tok_fix true 1 0); [left; reflexivity | rewrite pow256_1; lia].
       * rewrite andb_true_r. destruct (N.leb_spec m 100) as [H|H].
         { apply (tok_small_neg m). lia. }
-        destruct (N.leb_spec m 255); [apply (tok_fix true 1 m); [auto | rewrite pow256_1; lia]|].
+        destruct (N.leb_spec m 255); [apply (tok_fix true 1 m); [cbn; auto | rewrite pow256_1; lia]|].
         destruct (N.leb_spec m 65535); [apply (tok_fix true 2 m); [cbn; auto | rewrite pow256_2; lia]|].
         destruct (N.leb_spec m 4294967295); [apply (tok_fix true 4 m); [cbn; auto | rewrite pow256_4; lia]|].
         destruct (N.leb_spec m 281474976710655); [apply Hvar; lia|].
         apply (tok_fix true 8 m); [cbn; auto 6 | rewrite pow256_8; lia].
     + unfold enc_pos_int. int_consts. rewrite andb_true_r.
       destruct (N.leb_spec m 100) as [H|H]; [apply (tok_small_pos m H)|].
-      destruct (N.leb_spec m 255); [apply (tok_fix false 1 m); [auto | rewrite pow256_1; lia]|].
+      destruct (N.leb_spec m 255); [apply (tok_fix false 1 m); [cbn; auto | rewrite pow256_1; lia]|].
       destruct (N.leb_spec m 65535); [apply (tok_fix false 2 m); [cbn; auto | rewrite pow256_2; lia]|].
       destruct (N.leb_spec m 4294967295); [apply (tok_fix false 4 m); [cbn; auto | rewrite pow256_4; lia]|].
       destruct (N.leb_spec m 281474976710655); [apply Hvar; lia|].
